@@ -13,7 +13,7 @@ RULE = ("process runs of `hex encode` / `hex decode` (stdin and file): encode ou
         "the same bytes; odd digit counts and non-hex characters must fail with empty stdout; every length 0..512 then to 4096, all "
         "256 byte values. distinct = distinct (input, channel); non-trivial = stdout bytes compared")
 REQUIRED = ["encode-exact", "roundtrip", "decode-layout-whitespace", "decode-layout-uppercase", "decode-layout-mixedcase", "decode-no-prefix",
-            "decode-whitespace-inside-prefix", "decode-whitespace-inside-byte", "reject-odd", "reject-non-hex", "reject-second-prefix",
+            "decode-whitespace-inside-prefix", "decode-whitespace-inside-byte", "decode-layout-unicode-whitespace", "reject-odd", "reject-non-hex", "reject-second-prefix",
             "reject-invalid-utf8", "len-0", "len-1", "len-512", "len-4096", "all-byte-values", "channel-file", "channel-stdin", "reject-empty-stdout"]
 
 
@@ -172,12 +172,19 @@ def gen(shard, rng, tier):
             spec, ch = _cli(rng, "decode", text.encode())
             x = {"cls": "layout", "expect": "bytes", "data": b.hex(), "tags": tags, "channel": ch, "allbytes": b == bytes(range(256))}
             yield {"j": "decode", "profile": "dev" if rng.random() < 0.2 else "release", "x": x, "steps": [{"cli": spec}]}
-            if rng.random() < 0.1 and n:
-                # unspecified: Unicode-only whitespace, 0X prefix
+            if rng.random() < 0.15 and n:
+                # "ignores whitespace anywhere": the Unicode White_Space characters too
                 h = b.hex()
-                text2 = rng.choice(["0X" + h, "0x" + h[:2] + " " + h[2:], " " + "0x" + h, "0x" + h + "　"])
+                ws = rng.choice(bip39.UNICODE_WS[6:])
+                i = rng.randrange(len(h) + 1)
+                text2 = rng.choice(["0x" + h[:i] + ws + h[i:], ws + "0x" + h, "0x" + h + ws, "0" + ws + "x" + h])
                 spec, ch = _cli(rng, "decode", text2.encode())
-                yield {"j": "decode", "profile": "release", "x": {"cls": "unicode-ws-or-0X", "expect": "either", "data": b.hex(), "channel": ch},
+                yield {"j": "decode", "profile": "release", "x": {"cls": "unicode-ws", "expect": "bytes", "data": b.hex(), "channel": ch,
+                                                                  "tags": ["decode-layout-unicode-whitespace"]}, "steps": [{"cli": spec}]}
+            if rng.random() < 0.05 and n:
+                # unspecified: 0X prefix
+                spec, ch = _cli(rng, "decode", ("0X" + b.hex()).encode())
+                yield {"j": "decode", "profile": "release", "x": {"cls": "0X-prefix", "expect": "either", "data": b.hex(), "channel": ch},
                        "steps": [{"cli": spec}]}
     else:
         for _ in range(shard["count"]):
